@@ -405,8 +405,8 @@ impl Everything {
     /// the (contract, message) that moves the ownership of `t` to `newowner`, sent by the owner
     /// account (through the factory for children). None when the target has no transferable owner
     /// reachable by a message (the router's wasm admin).
-    pub fn transfer_msg(&self, t: Target) -> Option<(Addr, Binary)> {
-        let n = Some(self.new_owner.to_string());
+    pub fn transfer_msg(&self, t: Target, to: &Addr) -> Option<(Addr, Binary)> {
+        let n = Some(to.to_string());
         let b = |m: Binary, a: Addr| Some((a, m));
         match t {
             Target::PoolFactory => b(
@@ -723,6 +723,10 @@ pub struct Case {
     /// 0 configured owner, 1 hub owner account, 2 new owner, 3 user, 4 sibling contract,
     /// 5 the contract itself, 6 the pool factory, 7 the vault factory, 8 distributor, 9 the vault
     pub role: u8,
+    /// with `after_transfer`: ownership goes to the target contract's own address instead of the
+    /// prospective new owner's account (an owner renouncing control to the contract itself)
+    #[serde(default)]
+    pub transfer_to_self: bool,
     pub after_transfer: bool,
     pub payload: u64,
 }
@@ -744,16 +748,17 @@ impl Check for PrivilegeMatrix {
         "privilege_matrix"
     }
     fn rule(&self) -> &'static str {
-        "hand-written table of every ExecuteMsg variant of 14 contracts (pool factory, pair, trio, router, frontend helper, incentive factory, incentive, vault factory, vault, vault router, fee collector, fee distributor, whale lair, epoch manager), verified at start-up against the variant names derived from the message schemas; every privileged / internal variant x seventeen caller roles (configured owner, hub owner account, prospective new owner, user, sibling contract, the contract itself, pool factory, vault factory, fee distributor, a registered vault, the fee collector's configured take-rate recipient, the creator of an incentive flow, the bonding contract, the pool router, the vault router, the incentive factory, an incentive contract) x {before, after an ownership transfer} is enumerated exhaustively as the regression corpus with the canonical payload and with payloads that name the caller itself / an unregistered asset where a message carries the identity it is checked against (vault-router NextLoan source_vault + asset, CompleteLoan initiator), and random payload details are drawn on top; unauthorised attempts also come with reshaped payloads (any subset of the message's optional fields left out, down to the empty update, and the owner field naming the caller). Oracle: a caller outside the authorised set => rejected and full world snapshot unchanged; the authorised caller with the canonical payload => accepted (except migrations, whose payload is refused for version reasons); after a transfer the previous owner is rejected and the new owner accepted; AssertMinimumReceive is effect-free for every caller. Non-trivial: an unauthorised role was exercised; distinct by (variant, role, transfer, payload)."
+        "hand-written table of every ExecuteMsg variant of 14 contracts (pool factory, pair, trio, router, frontend helper, incentive factory, incentive, vault factory, vault, vault router, fee collector, fee distributor, whale lair, epoch manager), verified at start-up against the variant names derived from the message schemas; every privileged / internal variant x seventeen caller roles (configured owner, hub owner account, prospective new owner, user, sibling contract, the contract itself, pool factory, vault factory, fee distributor, a registered vault, the fee collector's configured take-rate recipient, the creator of an incentive flow, the bonding contract, the pool router, the vault router, the incentive factory, an incentive contract) x {before, after an ownership transfer to a new owner's account, after a transfer to the contract's own address} is enumerated exhaustively as the regression corpus with the canonical payload and with payloads that name the caller itself / an unregistered asset where a message carries the identity it is checked against (vault-router NextLoan source_vault + asset, CompleteLoan initiator), and random payload details are drawn on top; unauthorised attempts also come with reshaped payloads (any subset of the message's optional fields left out, down to the empty update, and the owner field naming the caller). Oracle: a caller outside the authorised set => rejected and full world snapshot unchanged; the authorised caller with the canonical payload => accepted (except migrations, whose payload is refused for version reasons); after a transfer the previous owner is rejected and the new owner accepted; AssertMinimumReceive is effect-free for every caller. Non-trivial: an unauthorised role was exercised; distinct by (variant, role, transfer, payload)."
     }
     fn strategy(&self, _tier: Tier) -> BoxedStrategy<Case> {
         let n = privileged_entries().len() as u16;
-        (0..n, 0u8..17, any::<bool>(), any::<u64>())
-            .prop_map(|(i, role, after_transfer, payload)| Case {
+        (0..n, 0u8..17, any::<bool>(), any::<u64>(), proptest::bool::weighted(0.3))
+            .prop_map(|(i, role, after_transfer, payload, transfer_to_self)| Case {
                 entry: privileged_entries()[i as usize] as u16,
                 role,
                 after_transfer,
                 payload,
+                transfer_to_self: after_transfer && transfer_to_self,
             })
             .boxed()
     }
@@ -773,8 +778,13 @@ impl Check for PrivilegeMatrix {
                             role,
                             after_transfer,
                             payload,
+                            transfer_to_self: false,
                         });
                     }
+                }
+                // ownership handed to the contract's own address: the canonical and the fully reshaped payload
+                for payload in [0u64, (1 << 16) | (1 << 17)] {
+                    out.push(Case { entry: i as u16, role, after_transfer: true, payload, transfer_to_self: true });
                 }
             }
         }
@@ -791,13 +801,17 @@ impl Check for PrivilegeMatrix {
         // the incentive's CloseFlow is authorised by the *factory's* owner
         let mut transferred = false;
         if c.after_transfer {
-            if let Some((contract, msg)) = ev.transfer_msg(e.target) {
+            let to = if c.transfer_to_self { target.clone() } else { ev.new_owner.clone() };
+            if let Some((contract, msg)) = ev.transfer_msg(e.target, &to) {
                 let r = ev.w.app.execute(hub_owner.clone(), CosmosMsg::Wasm(WasmMsg::Execute { contract_addr: contract.to_string(), msg, funds: vec![] }));
                 if r.is_err() {
                     return Err(Fail::new(format!("ownership transfer of {:?} by the owner failed: {:?}", e.target, r.err())));
                 }
-                owner_now = ev.new_owner.clone();
+                owner_now = to;
                 transferred = true;
+                if c.transfer_to_self {
+                    rec.class("ownership_handed_to_the_contract_itself");
+                }
             }
         }
         let caller = match c.role {
